@@ -8,6 +8,7 @@ import json, os, re, subprocess, sys, glob, concurrent.futures, threading
 lanes = int(sys.argv[1]) if len(sys.argv) > 1 else 4
 tier = sys.argv[2] if len(sys.argv) > 2 else "quick"
 flt = sys.argv[3] if len(sys.argv) > 3 else ""
+OUT = os.environ.get("MATRIX_OUT", "/verif/seeded/MATRIX.tsv")
 jobs = []
 for d in sorted(glob.glob("/verif/seeded/C*-*")):
     name = os.path.basename(d)
@@ -50,14 +51,14 @@ with concurrent.futures.ThreadPoolExecutor(max_workers=lanes) as ex:
             print("\t".join(r), flush=True)
 # merge with the rows of earlier (partial) runs: the newest result of a (change, property) pair wins
 old = {}
-if os.path.exists("/verif/seeded/MATRIX.tsv"):
-    for l in open("/verif/seeded/MATRIX.tsv").read().splitlines()[1:]:
+if os.path.exists(OUT):
+    for l in open(OUT).read().splitlines()[1:]:
         c = l.split("\t")
         if len(c) >= 4:
             old[(c[0], c[1])] = tuple(c[:4])
 for r in rows:
     old[(r[0], r[1])] = r
-with open("/verif/seeded/MATRIX.tsv", "w") as f:
+with open(OUT, "w") as f:
     f.write("change\tproperty\texit\tfirst violation\n")
     for k in sorted(old):
         f.write("\t".join(old[k]) + "\n")
